@@ -2152,6 +2152,17 @@ thread_main_handle_connection (void *data)
         tv.tv_usec = ((uint16_t) (mseconds_left % 1000)) * ((int32_t) 1000);
         tvp = &tv;
       }
+      else if (MHD_EVENT_LOOP_INFO_WRITE == con->event_loop_info)
+      {
+        /* shutdown() of a socket with a full send buffer (the peer does not
+         * read) does not make the socket "writable" for select() on every
+         * socket type (AF_UNIX on Linux reports only a hang-up, which select()
+         * does not put into the write set): use a bounded wait so that
+         * MHD_stop_daemon() is noticed by this thread. */
+        tv.tv_sec = 1;
+        tv.tv_usec = 0;
+        tvp = &tv;
+      }
       else
         tvp = NULL;
 
